@@ -674,4 +674,4 @@ func (e *Engine) resolveType(pkgName, text string) (types.Type, error) {
 // fsetType is the synthetic finite-set-of-references sort used by ghost fields.
 var fsetType types.Type = types.NewNamed(types.NewTypeName(token.NoPos, nil, "fset", nil), types.NewStruct(nil, nil), nil)
 
-const SortFSet = "gv_FSet"
+const SortFSet = "(Array (_ BitVec 64) Bool)"
